@@ -1,4 +1,5 @@
 import Gimli.Lemmas.ConvOpNest
+import Gimli.Lemmas.ConvOpWf
 import Gimli.Lemmas.WOpExpr
 /-!
 # C12, expression component — `write::Expression::from` preserves every operation or fails
@@ -77,22 +78,31 @@ theorem input_offsets_increasing (e : Endian) (enc : Encoding) (bs : Bytes) (ops
   obtain ⟨h1, h2, h3, _⟩ := iterAll_ends e enc bs.length (bs.length + 1) bs ops (Nat.le_refl _) (Nat.lt_succ_self _) h
   exact ⟨h1, fun p hp => ⟨by have := (h2 p hp).1; omega, (h2 p hp).2⟩, h3⟩
 
-/-- **(c) Whole expressions** (`_partial`: see below). If the conversion of `bs` succeeds with the
-writer operations `ws` and writing them succeeds with the bytes `out`, then: the input decoded
-without error into operations `ins`; `ws` is, position by position, the conversion of `ins` (so by
-(a) every non-branch operation of the output is `mapOp` of the input operation at the same
-position, and by (b) every branch designates the operation at the input target); and decoding `out`
-yields exactly the images of `ws`, as many as were converted, with operation boundaries at the
-writer's offsets vector (C15 `expr_decode_emit`; with C15 `branch_lands` each converted branch
-lands on the start of the operation it designates).
-**Partial** in that the operand ranges of the converted operations (`hwf`: they hold for decoded
-inputs, whose operands come from the `u64`/`i64`/`u16`/`u8` readers, and for pieces because the
-writer refuses oversized ones) are a hypothesis, not derived from the decoder here. -/
-theorem convert_expr_decode_partial (env : Env) (e : Endian) (enc : Encoding) (bs : Bytes)
+/-- every operand C07's decoder yields is in the range of its Rust type — for every opcode byte -/
+theorem decoded_in_range (e : Endian) (enc : Encoding) (bs : Bytes) (op : Op.Operation) (rest : Bytes)
+    (h : Op.parse e enc bs = .ok (op, rest)) : RWf enc op :=
+  (parse_rwf e enc bs).out op rest h
+
+/-- and conversion carries them to the writer's operand ranges (`WOp.OpWf`), given an environment
+that hands out `u64` addresses -/
+theorem converted_in_range (env : Env) (henv : EnvRanges env) (e : Endian) (enc : Encoding) (bs : Bytes)
+    (ws : List WOp.Operation) (h : convert env e enc bs = .ok ws) : ∀ w ∈ ws, WOp.OpWf w :=
+  convertNested_wf env henv e enc maxEntryValueDepth bs ws h
+
+/-- **(c) Whole expressions.** If the conversion of `bs` succeeds with the writer operations `ws`
+and writing them succeeds with the bytes `out`, then: the input decoded without error into
+operations `ins`; `ws` is, position by position, the conversion of `ins` (so by (a) every
+non-branch operation of the output is `mapOp` of the input operation at the same position, and by
+(b) every branch designates the operation at the input target); and decoding `out` yields exactly
+the images of `ws`, as many as were converted, with operation boundaries at the writer's offsets
+vector (C15 `expr_decode_emit`; with C15 `branch_lands` each converted branch lands on the start of
+the operation it designates). The only assumptions: the environment hands out `u64` addresses
+(`EnvRanges`), output entry offsets and the output length fit `u64`. -/
+theorem convert_expr_decode (env : Env) (henv : EnvRanges env) (e : Endian) (enc : Encoding) (bs : Bytes)
     (ws : List WOp.Operation) (hconv : convert env e enc bs = .ok ws)
     (offs : Nat → Option Nat) (hasRefs : Bool) (pos : Nat) (out : Bytes) (fx : List WOp.Fixup)
     (hw : WOp.exprWrite e enc (some offs) hasRefs pos ws = .ok (out, fx))
-    (hwf : ∀ w ∈ ws, WOp.OpWf w) (hoffs : ∀ en o, offs en = some o → o < 2 ^ 64)
+    (hoffs : ∀ en o, offs en = some o → o < 2 ^ 64)
     (hlen : out.length < 2 ^ 64) (fuel : Nat) (hfuel : ws.length ≤ fuel) :
     ∃ ins offsOut,
       Op.iterAll e enc bs.length (bs.length + 1) bs = (ins, none) ∧
@@ -101,6 +111,7 @@ theorem convert_expr_decode_partial (env : Env) (e : Endian) (enc : Encoding) (b
       WOp.exprOffsets enc (some offs) ws pos = .ok offsOut ∧
       Op.iterAll e enc out.length fuel out =
         (WOp.expectedDecode e enc (some offs) hasRefs offsOut pos 0 ws, none) := by
+  have hwf := converted_in_range env henv e enc bs ws hconv
   unfold convert at hconv
   rw [convertNested_unfold] at hconv
   cases hI : Op.iterAll e enc bs.length (bs.length + 1) bs with
